@@ -44,6 +44,9 @@ def _case(draw):
               draw(st.integers(0, 3)), draw(st.integers(0, 1))] for _ in range(draw(st.sampled_from([0, 0, 1, 2])))]
     return {"ds": ds, "npts": npts, "combos": combos, "calls1": calls1, "calls2": calls2, "temps": temps,
             "ctor": [draw(st.sampled_from([False, False, True])) for _ in ds],
+            # a block-smooth function on partition 0 evaluated at some points: its class constraints decompose gradients
+            # themselves, possibly the only decompositions of that partition before the first solve
+            "blocksmooth": draw(st.sampled_from([0, 0, 0, 1, 2])),
             "second_solve": draw(st.booleans()), "vseed": draw(st.integers(0, 10 ** 6)), "zero_grad": draw(st.booleans())}
 
 
@@ -104,6 +107,12 @@ def check_case(case, ctx):
         if case.get("zero_grad"):
             xs, gs, fs = f.stationary_point(return_gradient_and_function_value=True)
             X.append(gs)           # the null gradient: a non-leaf point with an empty decomposition
+        bs = None
+        if case.get("blocksmooth"):
+            from PEPit.functions import BlockSmoothConvexFunction
+            bs = pep.declare_function(BlockSmoothConvexFunction, partition=parts[0], L=[1.0 + q for q in range(parts[0].get_nb_blocks())])
+            for q in range(case["blocksmooth"]):
+                bs.gradient(X[q % len(X)])
         pep.set_initial_condition(X[0] ** 2 <= 1)
         pep.set_performance_metric(X[0] ** 2)
     n = max(case["ds"]) + rng.randint(0, 3)
@@ -165,7 +174,7 @@ def check_case(case, ctx):
     def check_blocks():
         for pi, part in enumerate(parts):
             d = part.get_nb_blocks()
-            if len(part.blocks_dict) != len(tracked[pi]):
+            if len(part.blocks_dict) != len(tracked[pi]) and not (bs is not None and pi == 0):
                 ctx.fail("blocks_dict-size", "blocks_dict has %d entries for %d decomposed points" % (len(part.blocks_dict), len(tracked[pi])))
             for want, full, is_leaf, blocks in tracked[pi].values():
                 if len(blocks) != d:
@@ -210,7 +219,12 @@ def check_case(case, ctx):
                 if c.equality_or_inequality != "equality":
                     ctx.fail("partition-constraint-not-equality", "a partition constraint is an inequality")
             got = [sem.functional(c.expression) for c in mine]
-            ref = reference_relations(part, [t[3] for t in tracked[pi].values()])
+            if bs is not None and pi == 0:
+                # the class decomposed points on its own: everything the partition holds is a decomposed point
+                ref = reference_relations(part, [list(v) for v in part.blocks_dict.values()])
+                ctx.label("class-decomposed-points")
+            else:
+                ref = reference_relations(part, [t[3] for t in tracked[pi].values()])
             ra, rb, rab = span_equal(got, ref)
             if rab > ra:
                 ctx.fail("orthogonality-relation-missing:%s" % tag,
@@ -220,13 +234,14 @@ def check_case(case, ctx):
                 ctx.fail("undeclared-relation-imposed:%s" % tag,
                          "the partition imposes a relation that is not an orthogonality between different blocks (ranks %d, %d, %d)"
                          % (ra, rb, rab))
-            # concrete: real coordinate projections satisfy everything
-            for c in mine:
+            # concrete: real coordinate projections satisfy everything (not for a partition whose points were decomposed by
+            # class code during the solve: those leaves have no concrete value here)
+            for c in (mine if not (bs is not None and pi == 0) else []):
                 v, mag = sem.val_expr(c.expression, val)
                 if abs(v) > 1e-9 * (1 + mag):
                     ctx.fail("real-partition-excluded", "a real coordinate partition violates a partition constraint by %.3e" % v)
                     break
-            ndec = len(tracked[pi])
+            ndec = len(tracked[pi]) if not (bs is not None and pi == 0) else len(part.blocks_dict)
             d = part.get_nb_blocks()
             sizes.append((len(mine), ndec * ndec * d * (d - 1) // 2))
         return sizes
